@@ -229,7 +229,12 @@ func Gen(prop, tier string, seed uint64) *kernel.Plan {
 			}
 			evs = append(evs, e)
 		case 7:
-			evs = append(evs, Ev{T: "reset", A: g.Intn(3)})
+			rs := Ev{T: "reset", A: g.Intn(3)}
+			if prop == "C17" && g.Chance(1, 3) {
+				// the database fails on one command of the purge
+				rs.MF = []MongoFault{{At: g.Range(1, 9), Kind: []string{"errBefore", "errAfter"}[g.Intn(2)]}}
+			}
+			evs = append(evs, rs)
 			// the applications of the reset collection start over: fresh clients, the same keys again
 			for x := 0; x < nAct; x++ {
 				if g.Chance(1, 4) {
